@@ -21,6 +21,20 @@ Conventions
 import hashlib
 import hmac
 
+__all__ = [
+    'CURVES', 'is_probable_prime', 'sqrt_mod',
+    'ws_on_curve', 'ws_add', 'ws_neg', 'ws_double', 'ws_mul', 'ws_mul2',
+    'ws_mul_affine', 'ws_decompress', 'sec1_encode', 'sec1_decode',
+    'ed_on_curve', 'ed_add', 'ed_neg', 'ed_mul', 'ed_mul_affine',
+    'ed_encode', 'ed_decode', 'ed_small_order_points',
+    'x25519', 'x448', 'x25519_clamp', 'x448_clamp', 'mont_ladder',
+    'mont_on_curve', 'mont_twist_order', 'mont_low_order_us',
+    'bits2int', 'int2octets', 'bits2octets', 'ecdsa_sign', 'ecdsa_verify',
+    'dsa_sign', 'dsa_verify', 'rfc6979_k', 'rfc6979_k_iter',
+    'eddsa_prehash', 'eddsa_expand_seed', 'eddsa_pubkey', 'eddsa_sign',
+    'eddsa_verify', 'selftest',
+]
+
 # ---------------------------------------------------------------------------
 # number theory helpers
 # ---------------------------------------------------------------------------
@@ -264,7 +278,9 @@ def _jac_double(p, a, X, Y, Z):
     YY = Y * Y % p
     S = 4 * X * YY % p
     ZZ = Z * Z % p
-    M = (3 * X * X + a * ZZ * ZZ) % p
+    if a > p >> 1:
+        a -= p                  # small negative representative (a = -3)
+    M = (3 * X * X + a * (ZZ * ZZ % p)) % p
     X3 = (M * M - 2 * S) % p
     Y3 = (M * (S - X3) - 8 * YY * YY) % p
     Z3 = 2 * Y * Z % p
@@ -310,11 +326,24 @@ def ws_mul(c, k, P):
         return ws_mul(c, -k, ws_neg(c, P))
     p, a = c['p'], c['a']
     x2, y2 = P
+    ny2 = (-y2) % p
+    # non-adjacent form, least significant digit first
+    naf = []
+    while k:
+        if k & 1:
+            dgt = 2 - (k & 3)
+            k -= dgt
+        else:
+            dgt = 0
+        naf.append(dgt)
+        k >>= 1
     X, Y, Z = 1, 1, 0
-    for i in reversed(range(k.bit_length())):
+    for dgt in reversed(naf):
         X, Y, Z = _jac_double(p, a, X, Y, Z)
-        if (k >> i) & 1:
+        if dgt == 1:
             X, Y, Z = _jac_add_affine(p, a, X, Y, Z, x2, y2)
+        elif dgt == -1:
+            X, Y, Z = _jac_add_affine(p, a, X, Y, Z, x2, ny2)
     return _jac_to_affine(p, X, Y, Z)
 
 
@@ -1481,3 +1510,669 @@ def _st_arith(counts):
             mont_ladder('Curve448', k, 5), "Ed448/Curve448 isogeny")
         n_m += 2
     counts['mont_arith'] = n_m
+
+
+def _st_rfc_vectors(counts):
+    """Embedded RFC 6979 / 8032 / 7748 vectors."""
+    n = 0
+    # RFC 6979 A.1.2 / A.1.3 worked example (q of sect163k1, k only)
+    q = 0x4000000000000000000020108A2E0CC0D99F8A5EF
+    x = 0x09A4D6792295A7F730FC3F2B49CBC0F62E862272F
+    h1 = hashlib.sha256(b'sample').digest()
+    _eq(int2octets(x, q).hex(), '009a4d6792295a7f730fc3f2b49cbc0f62e862272f', "int2octets")
+    _eq(bits2octets(h1, q).hex(), '01795edf0d54db760f156d0dac04c0322b3a204224', "bits2octets")
+    _eq(rfc6979_k(q, x, h1, 'SHA-256'), 0x23AF4074C90A02B3FE61D286D5C87F425E6BDD81B, "RFC6979 A.1 k")
+    n += 3
+    c = CURVES['P-256']
+    d = _RFC6979_P256_X
+    Q = ws_mul(c, d, c['G'])
+    _eq(Q, (0x60FED4BA255A9D31C961EB74C6356D68C049B8923B61FA6CE669622E60F29FB6,
+            0x7903FE1008B8BC99A41AE9E95628BC64F2F1B20C2D7E9F5177A3C294D4462299),
+        "RFC6979 A.2.5 public key")
+    for hn, msg, k, r, s in _RFC6979_P256:
+        h = hashlib.new(hn, msg).digest()
+        kk = rfc6979_k(c['n'], d, h, hn)
+        _eq(kk, _I(k), "RFC6979 P-256 k")
+        _eq(ecdsa_sign(c, d, kk, h), (_I(r), _I(s)), "RFC6979 P-256 sig")
+        _ok(ecdsa_verify(c, Q, h, _I(r), _I(s)), "RFC6979 P-256 verify")
+        _ok(not ecdsa_verify(c, Q, h, _I(r), _I(s) ^ 1), "RFC6979 P-256 neg")
+        n += 4
+    D = _RFC6979_DSA1024
+    _eq(pow(D['g'], D['x'], D['p']), D['y'], "RFC6979 DSA y")
+    for hn, msg, k, r, s in D['sigs']:
+        h = hashlib.new(hn, msg).digest()
+        kk = rfc6979_k(D['q'], D['x'], h, hn)
+        _eq(kk, _I(k), "RFC6979 DSA k")
+        _eq(dsa_sign(D['p'], D['q'], D['g'], D['x'], kk, h), (_I(r), _I(s)), "RFC6979 DSA sig")
+        _ok(dsa_verify(D['p'], D['q'], D['g'], D['y'], h, _I(r), _I(s)), "RFC6979 DSA verify")
+        _ok(not dsa_verify(D['p'], D['q'], D['g'], D['y'], h, _I(r) ^ 1, _I(s)), "RFC6979 DSA neg")
+        n += 4
+    counts['rfc6979_embedded'] = n
+
+    n = 0
+    for curve, seed, pk, msg, ph, ctx, sig in _RFC8032:
+        seed, pk, msg, sig = _H(seed), _H(pk), _H(msg), _H(sig)
+        ctx = None if ctx is None else _H(ctx)
+        m = eddsa_prehash(curve, msg) if ph else msg
+        _eq(eddsa_pubkey(curve, seed), pk, "RFC8032 pubkey")
+        _eq(eddsa_sign(curve, seed, m, ctx, ph), sig, "RFC8032 sign")
+        _ok(eddsa_verify(curve, pk, m, sig, ctx, ph), "RFC8032 verify")
+        _ok(not eddsa_verify(curve, pk, m + b'x', sig, ctx, ph), "RFC8032 neg msg")
+        _ok(not eddsa_verify(curve, pk, m, sig, b'other', ph), "RFC8032 neg ctx")
+        _ok(not eddsa_verify(curve, pk, m, sig, ctx, not ph), "RFC8032 neg ph")
+        # S + L must be rejected, S itself accepted
+        L, sz = CURVES[curve]['L'], CURVES[curve]['size']
+        S = int.from_bytes(sig[sz:], 'little')
+        if S + L < 1 << (8 * sz):
+            bad = sig[:sz] + (S + L).to_bytes(sz, 'little')
+            _ok(not eddsa_verify(curve, pk, m, bad, ctx, ph), "RFC8032 S+L accepted")
+        n += 7
+    # S == L with identity key and R (the non-canonical-S corner)
+    for curve in ('Ed25519', 'Ed448'):
+        c = CURVES[curve]
+        ident = ed_encode(c, (0, 1))
+        _ok(eddsa_verify(curve, ident, b'm', ident + bytes(c['size'])), curve + " identity S=0")
+        _ok(not eddsa_verify(curve, ident, b'm', ident + c['L'].to_bytes(c['size'], 'little')),
+            curve + " identity S=L accepted")
+        _ok(not eddsa_verify(curve, ident[:-1], b'm', ident + bytes(c['size'])), curve + " short pk")
+        _ok(not eddsa_verify(curve, ident, b'm', ident + bytes(c['size'] - 1)), curve + " short sig")
+        n += 4
+    counts['rfc8032_embedded'] = n
+
+    n = 0
+    for fn, vecs, it, dh, sz, gu in (
+            (x25519, _RFC7748_X25519, _RFC7748_X25519_ITER, _RFC7748_X25519_DH, 32, 9),
+            (x448, _RFC7748_X448, _RFC7748_X448_ITER, _RFC7748_X448_DH, 56, 5)):
+        for k, u, r in vecs:
+            _eq(fn(_H(k), _H(u)).hex(), r, "RFC7748 5.2 vector")
+            n += 1
+        k = u = gu.to_bytes(sz, 'little')
+        for i in range(1000):
+            k, u = fn(k, u), k
+            if i == 0:
+                _eq(k.hex(), it[0], "RFC7748 1 iteration")
+        _eq(k.hex(), it[1], "RFC7748 1000 iterations")
+        n += 2
+        a, A, b, B, K = map(_H, dh)
+        g = gu.to_bytes(sz, 'little')
+        _eq(fn(a, g), A, "RFC7748 6 Alice pub")
+        _eq(fn(b, g), B, "RFC7748 6 Bob pub")
+        _eq(fn(a, B), K, "RFC7748 6 shared a")
+        _eq(fn(b, A), K, "RFC7748 6 shared b")
+        n += 4
+    counts['rfc7748_embedded'] = n
+
+
+def _ast_literal(node):
+    """Tuple/List/Constant/Name tree -> Python data; Names become '@name'."""
+    import ast
+    if isinstance(node, (ast.Tuple, ast.List)):
+        return [_ast_literal(e) for e in node.elts]
+    if isinstance(node, ast.Constant):
+        return node.value
+    if isinstance(node, ast.Name):
+        return '@' + node.id
+    raise ValueError("unsupported literal node %r" % (node,))
+
+
+def _ast_assigns(body):
+    import ast
+    out = {}
+    for st in body:
+        if isinstance(st, ast.Assign) and len(st.targets) == 1 and \
+                isinstance(st.targets[0], ast.Name):
+            out[st.targets[0].id] = st.value
+    return out
+
+
+_ST_HASH = {'@SHA1': 'sha1', '@SHA224': 'sha224', '@SHA256': 'sha256',
+            '@SHA384': 'sha384', '@SHA512': 'sha512'}
+
+
+def _st_selftest_files(counts, st_dir):
+    """RFC vectors stored in the library's SelfTest sources, read as text
+    (ast.parse never executes or imports anything)."""
+    import ast
+    import os
+    path = os.path.join(st_dir, 'Signature', 'test_eddsa.py')
+    n = 0
+    if os.path.exists(path):
+        with open(path) as f:
+            tree = ast.parse(f.read())
+        tvs = _ast_literal(_ast_assigns(tree.body)['rfc8032_tv_str'])
+        for sk, pk, msg, hashmod, ctx, sig in tvs:
+            sk, pk, msg, ctx, sig = map(_H, (sk, pk, msg, ctx, sig))
+            curve = 'Ed25519' if len(sk) == 32 else 'Ed448'
+            ph = hashmod is not None
+            cx = ctx if ctx else None
+            m = eddsa_prehash(curve, msg) if ph else msg
+            _eq(eddsa_pubkey(curve, sk), pk, "RFC8032(file) pubkey")
+            _eq(eddsa_sign(curve, sk, m, cx, ph), sig, "RFC8032(file) sign")
+            _ok(eddsa_verify(curve, pk, m, sig, cx, ph), "RFC8032(file) verify")
+            n += 1
+        _ok(n >= 20, "expected >= 20 RFC 8032 vectors in test_eddsa.py, got %d" % n)
+    counts['rfc8032_file'] = n
+
+    path = os.path.join(st_dir, 'Signature', 'test_dss.py')
+    n_ec = n_dsa = 0
+    if os.path.exists(path):
+        with open(path) as f:
+            tree = ast.parse(f.read())
+        classes = {st.name: st for st in tree.body if isinstance(st, ast.ClassDef)}
+        asg = _ast_assigns(classes['Det_ECDSA_Tests'].body)
+        for bits in ('192', '224', '256', '384', '521'):
+            call = asg['key_priv_p' + bits]
+            kw = {k.arg: _ast_literal(k.value) for k in call.keywords}
+            c = CURVES[kw['curve']]
+            d = kw['d']
+            Q = ws_mul(c, d, c['G'])
+            for msg, k, r, s, hm in _ast_literal(asg['signatures_p%s_' % bits]):
+                hn = _ST_HASH[hm]
+                h = hashlib.new(hn, msg.encode()).digest()
+                kk = rfc6979_k(c['n'], d, h, hn)
+                _eq(kk, _I(k), "RFC6979(file) P-%s %s k" % (bits, hn))
+                _eq(ecdsa_sign(c, d, kk, h), (_I(r), _I(s)), "RFC6979(file) sig")
+                _ok(ecdsa_verify(c, Q, h, _I(r), _I(s)), "RFC6979(file) verify")
+                n_ec += 1
+        asg = _ast_assigns(classes['Det_DSA_Tests'].body)
+        keys = {}
+        for p, q, g, x, y, desc in _ast_literal(asg['keys']):
+            keys[desc] = tuple(map(_I, (p, q, g, x, y)))
+        for msg, k, r, s, hm, desc in _ast_literal(asg['signatures']):
+            p, q, g, x, y = keys[desc]
+            hn = _ST_HASH[hm]
+            h = hashlib.new(hn, msg.encode()).digest()
+            kk = rfc6979_k(q, x, h, hn)
+            _eq(kk, _I(k), "RFC6979(file) %s %s k" % (desc, hn))
+            _eq(dsa_sign(p, q, g, x, kk, h), (_I(r), _I(s)), "RFC6979(file) DSA sig")
+            _ok(dsa_verify(p, q, g, y, h, _I(r), _I(s)), "RFC6979(file) DSA verify")
+            n_dsa += 1
+        _ok(n_ec >= 50 and n_dsa >= 20, "too few RFC 6979 vectors parsed")
+    counts['rfc6979_file_ecdsa'] = n_ec
+    counts['rfc6979_file_dsa'] = n_dsa
+
+
+def _st_nist(counts, vec_dir):
+    """NIST CAVS ECDSA / DSA / ECC-CDH response files."""
+    import os
+    sig_dir = os.path.join(vec_dir, 'Signature')
+
+    n = 0
+    path = os.path.join(sig_dir, 'ECDSA', 'SigGen.txt')
+    if os.path.exists(path):
+        for sec, r in _parse_rsp(path):
+            cname, hname = sec.split(',')
+            c = CURVES[cname]
+            h = hashlib.new(_hash_name(hname), _hexbytes(r['Msg'])).digest()
+            d, k = _hexint(r['d']), _hexint(r['k'])
+            Q = (_hexint(r['Qx']), _hexint(r['Qy']))
+            _eq(ws_mul(c, d, c['G']), Q, "ECDSA SigGen %s public key" % sec)
+            _eq(ecdsa_sign(c, d, k, h), (_hexint(r['R']), _hexint(r['S'])),
+                "ECDSA SigGen %s signature" % sec)
+            _ok(ecdsa_verify(c, Q, h, _hexint(r['R']), _hexint(r['S'])),
+                "ECDSA SigGen %s verify" % sec)
+            n += 1
+    counts['nist_ecdsa_siggen'] = n
+
+    n = 0
+    for fn in ('SigVer.rsp', 'SigVer_TruncatedSHAs.rsp'):
+        path = os.path.join(sig_dir, 'ECDSA', fn)
+        if not os.path.exists(path):
+            continue
+        for sec, r in _parse_rsp(path):
+            cname, hname = sec.split(',')
+            c = CURVES[cname]
+            try:
+                h = hashlib.new(_hash_name(hname), _hexbytes(r['Msg'])).digest()
+            except ValueError:
+                continue                      # hash not offered by this hashlib
+            Q = (_hexint(r['Qx']), _hexint(r['Qy']))
+            exp = r['Result'].startswith('P')
+            _eq(ecdsa_verify(c, Q, h, _hexint(r['R']), _hexint(r['S'])), exp,
+                "ECDSA SigVer %s Msg=%s..." % (sec, r['Msg'][:16]))
+            n += 1
+    counts['nist_ecdsa_sigver'] = n
+
+    n = 0
+    path = os.path.join(sig_dir, 'DSA', 'FIPS_186_3_SigGen.txt')
+    if os.path.exists(path):
+        for sec, r in _parse_rsp(path):
+            hname = sec.split(',')[-1].strip()
+            h = hashlib.new(_hash_name(hname), _hexbytes(r['Msg'])).digest()
+            p, q, g = _hexint(r['P']), _hexint(r['Q']), _hexint(r['G'])
+            x, y, k = _hexint(r['X']), _hexint(r['Y']), _hexint(r['K'])
+            _eq(pow(g, x, p), y, "DSA SigGen %s public key" % sec)
+            _eq(dsa_sign(p, q, g, x, k, h), (_hexint(r['R']), _hexint(r['S'])),
+                "DSA SigGen %s signature" % sec)
+            _ok(dsa_verify(p, q, g, y, h, _hexint(r['R']), _hexint(r['S'])),
+                "DSA SigGen %s verify" % sec)
+            n += 1
+    counts['nist_dsa_siggen'] = n
+
+    n = 0
+    path = os.path.join(sig_dir, 'DSA', 'FIPS_186_3_SigVer.rsp')
+    if os.path.exists(path):
+        for sec, r in _parse_rsp(path):
+            hname = sec.split(',')[-1].strip()
+            h = hashlib.new(_hash_name(hname), _hexbytes(r['Msg'])).digest()
+            p, q, g = _hexint(r['P']), _hexint(r['Q']), _hexint(r['G'])
+            exp = r['Result'].startswith('P')
+            _eq(dsa_verify(p, q, g, _hexint(r['Y']), h, _hexint(r['R']), _hexint(r['S'])),
+                exp, "DSA SigVer %s Msg=%s..." % (sec, r['Msg'][:16]))
+            n += 1
+    counts['nist_dsa_sigver'] = n
+
+    n = 0
+    path = os.path.join(vec_dir, 'Protocol', 'KAS_ECC_CDH_PrimitiveTest.txt')
+    if os.path.exists(path):
+        for sec, r in _parse_rsp(path):
+            if sec not in CURVES:
+                continue
+            c = CURVES[sec]
+            Qc = (_hexint(r['QCAVSx']), _hexint(r['QCAVSy']))
+            d = _hexint(r['dIUT'])
+            _ok(ws_on_curve(c, Qc), "CDH peer key off curve")
+            _eq(ws_mul(c, d, c['G']), (_hexint(r['QIUTx']), _hexint(r['QIUTy'])),
+                "CDH %s own public key" % sec)
+            _eq(ws_mul(c, d, Qc)[0], _hexint(r['ZIUT']), "CDH %s shared secret" % sec)
+            n += 1
+    counts['nist_ecc_cdh'] = n
+
+
+def _wy_load(path):
+    import json
+    with open(path) as f:
+        return json.load(f)
+
+
+def _st_wycheproof(counts, vec_dir):
+    """Wycheproof ECDSA (DER + P1363), DSA, EdDSA, XDH, ECDH-ecpoint."""
+    import glob
+    import os
+    wsig = os.path.join(vec_dir, 'Signature', 'wycheproof')
+    wpro = os.path.join(vec_dir, 'Protocol', 'wycheproof')
+
+    n_used = n_skip = n_acc = 0
+    files = sorted(glob.glob(os.path.join(wsig, 'ecdsa_*_test.json')) +
+                   glob.glob(os.path.join(wsig, 'ecdsa_test.json')))
+    for path in files:
+        for g in _wy_load(path)['testGroups']:
+            cname = _WY_CURVES.get(g['key']['curve'])
+            if cname is None:
+                continue
+            c = CURVES[cname]
+            try:
+                hn = _hash_name(g['sha'])
+                hashlib.new(hn)
+            except ValueError:
+                continue
+            Q = sec1_decode(c, _H(g['key']['uncompressed']))
+            _eq(Q, (_I(g['key']['wx']), _I(g['key']['wy'])), "wycheproof key")
+            p1363 = g['type'] == 'EcdsaP1363Verify'
+            for t in g['tests']:
+                sig = _H(t['sig'])
+                h = hashlib.new(hn, _H(t['msg'])).digest()
+                if p1363:
+                    sz = (c['n'].bit_length() + 7) // 8
+                    if len(sig) != 2 * sz:
+                        _ok(t['result'] != 'valid', "wycheproof P1363 odd length marked valid")
+                        n_skip += 1
+                        continue
+                    rs = (int.from_bytes(sig[:sz], 'big'), int.from_bytes(sig[sz:], 'big'))
+                else:
+                    rs = _der_two_ints(sig)
+                    if rs is None:
+                        _ok(t['result'] != 'valid', "wycheproof: non-canonical DER marked valid")
+                        n_skip += 1
+                        continue
+                got = ecdsa_verify(c, Q, h, rs[0], rs[1])
+                if t['result'] == 'acceptable':
+                    n_acc += 1
+                    continue
+                _eq(got, t['result'] == 'valid', "wycheproof ECDSA %s tcId %d (%s)"
+                    % (os.path.basename(path), t['tcId'], t['comment']))
+                n_used += 1
+    counts['wycheproof_ecdsa'] = n_used
+    counts['wycheproof_ecdsa_skipped_encoding'] = n_skip
+    counts['wycheproof_ecdsa_acceptable'] = n_acc
+
+    n = n_skip = 0
+    path = os.path.join(wsig, 'dsa_test.json')
+    if os.path.exists(path):
+        for g in _wy_load(path)['testGroups']:
+            k = g['key']
+            p, q, gg, y = _I(k['p']), _I(k['q']), _I(k['g']), _I(k['y'])
+            hn = _hash_name(g['sha'])
+            for t in g['tests']:
+                rs = _der_two_ints(_H(t['sig']))
+                if rs is None:
+                    _ok(t['result'] != 'valid', "wycheproof DSA: non-canonical DER marked valid")
+                    n_skip += 1
+                    continue
+                h = hashlib.new(hn, _H(t['msg'])).digest()
+                got = dsa_verify(p, q, gg, y, h, rs[0], rs[1])
+                if t['result'] == 'acceptable':
+                    continue
+                _eq(got, t['result'] == 'valid', "wycheproof DSA tcId %d (%s)"
+                    % (t['tcId'], t['comment']))
+                n += 1
+    counts['wycheproof_dsa'] = n
+    counts['wycheproof_dsa_skipped_encoding'] = n_skip
+
+    n = 0
+    for fn, curve in (('eddsa_test.json', 'Ed25519'), ('ed448_test.json', 'Ed448')):
+        path = os.path.join(wsig, fn)
+        if not os.path.exists(path):
+            continue
+        for g in _wy_load(path)['testGroups']:
+            pk = _H(g['key']['pk'])
+            _eq(eddsa_pubkey(curve, _H(g['key']['sk'])), pk, "wycheproof EdDSA pubkey")
+            for t in g['tests']:
+                got = eddsa_verify(curve, pk, _H(t['msg']), _H(t['sig']))
+                _ok(t['result'] in ('valid', 'invalid'), "unexpected wycheproof result class")
+                _eq(got, t['result'] == 'valid', "wycheproof %s tcId %d (%s)"
+                    % (fn, t['tcId'], t['comment']))
+                if got:
+                    _eq(eddsa_sign(curve, _H(g['key']['sk']), _H(t['msg'])), _H(t['sig']),
+                        "wycheproof %s tcId %d re-sign" % (fn, t['tcId']))
+                n += 1
+    counts['wycheproof_eddsa'] = n
+
+    n = 0
+    for fn, f in (('x25519_test.json', x25519), ('x448_test.json', x448)):
+        path = os.path.join(wpro, fn)
+        if not os.path.exists(path):
+            continue
+        for g in _wy_load(path)['testGroups']:
+            for t in g['tests']:
+                try:
+                    got = f(_H(t['private']), _H(t['public']))
+                except ValueError:
+                    _ok(t['result'] != 'valid', "wycheproof XDH valid case raised")
+                    continue
+                _eq(got.hex(), t['shared'], "wycheproof %s tcId %d (%s)"
+                    % (fn, t['tcId'], t['comment']))
+                n += 1
+    counts['wycheproof_xdh'] = n
+
+    n = n_rej = 0
+    for path in sorted(glob.glob(os.path.join(wpro, 'ecdh_*_ecpoint_test.json'))):
+        for g in _wy_load(path)['testGroups']:
+            cname = _WY_CURVES.get(g['curve'])
+            if cname is None:
+                continue
+            c = CURVES[cname]
+            for t in g['tests']:
+                d = _I(t['private'])
+                try:
+                    Q = sec1_decode(c, _H(t['public']), allow_infinity=False)
+                except ValueError:
+                    _ok(t['result'] != 'valid', "wycheproof ECDH valid point rejected tcId %d" % t['tcId'])
+                    n_rej += 1
+                    continue
+                _ok(t['result'] != 'invalid', "wycheproof ECDH invalid point accepted tcId %d (%s)"
+                    % (t['tcId'], t['comment']))
+                S = ws_mul(c, d, Q)
+                _eq(S[0].to_bytes(c['size'], 'big').hex(), t['shared'],
+                    "wycheproof ECDH %s tcId %d" % (os.path.basename(path), t['tcId']))
+                n += 1
+    counts['wycheproof_ecdh_ecpoint'] = n
+    counts['wycheproof_ecdh_ecpoint_rejected'] = n_rej
+
+
+class _OpenSSL:
+    """Tiny ctypes binding to the system libcrypto (optional cross-check)."""
+    NID = {'P-192': 409, 'P-224': 713, 'P-256': 415, 'P-384': 715, 'P-521': 716}
+    PKEY = {'X25519': 1034, 'X448': 1035, 'Ed25519': 1087, 'Ed448': 1088}
+
+    def __init__(self):
+        import ctypes
+        import ctypes.util
+        self.ct = ctypes
+        name = ctypes.util.find_library('crypto')
+        if not name:
+            raise OSError("libcrypto not found")
+        lib = self.lib = ctypes.CDLL(name)
+        vp, ci, cz = ctypes.c_void_p, ctypes.c_int, ctypes.c_size_t
+        cp = ctypes.c_char_p
+        sigs = {
+            'BN_bin2bn': (vp, cp, ci, vp), 'BN_bn2binpad': (ci, vp, cp, ci),
+            'BN_new': (vp,), 'BN_free': (None, vp),
+            'EC_KEY_new_by_curve_name': (vp, ci), 'EC_KEY_free': (None, vp),
+            'EC_KEY_set_private_key': (ci, vp, vp),
+            'EC_KEY_set_public_key_affine_coordinates': (ci, vp, vp, vp),
+            'EC_KEY_get0_group': (vp, vp),
+            'EC_POINT_new': (vp, vp), 'EC_POINT_free': (None, vp),
+            'EC_POINT_mul': (ci, vp, vp, vp, vp, vp, vp),
+            'EC_POINT_set_affine_coordinates': (ci, vp, vp, vp, vp, vp),
+            'EC_POINT_get_affine_coordinates': (ci, vp, vp, vp, vp, vp),
+            'EC_POINT_is_at_infinity': (ci, vp, vp),
+            'ECDSA_do_sign': (vp, cp, ci, vp),
+            'ECDSA_do_verify': (ci, cp, ci, vp, vp),
+            'ECDSA_SIG_new': (vp,), 'ECDSA_SIG_free': (None, vp),
+            'ECDSA_SIG_set0': (ci, vp, vp, vp),
+            'ECDSA_SIG_get0_r': (vp, vp), 'ECDSA_SIG_get0_s': (vp, vp),
+            'EVP_PKEY_new_raw_private_key': (vp, ci, vp, cp, cz),
+            'EVP_PKEY_new_raw_public_key': (vp, ci, vp, cp, cz),
+            'EVP_PKEY_get_raw_public_key': (ci, vp, cp, ctypes.POINTER(cz)),
+            'EVP_PKEY_free': (None, vp),
+            'EVP_PKEY_CTX_new': (vp, vp, vp), 'EVP_PKEY_CTX_free': (None, vp),
+            'EVP_PKEY_derive_init': (ci, vp),
+            'EVP_PKEY_derive_set_peer': (ci, vp, vp),
+            'EVP_PKEY_derive': (ci, vp, cp, ctypes.POINTER(cz)),
+            'EVP_MD_CTX_new': (vp,), 'EVP_MD_CTX_free': (None, vp),
+            'EVP_DigestSignInit': (ci, vp, vp, vp, vp, vp),
+            'EVP_DigestSign': (ci, vp, cp, ctypes.POINTER(cz), cp, cz),
+            'EVP_DigestVerifyInit': (ci, vp, vp, vp, vp, vp),
+            'EVP_DigestVerify': (ci, vp, cp, cz, cp, cz),
+        }
+        for fname, sig in sigs.items():
+            f = getattr(lib, fname)
+            f.restype = sig[0]
+            f.argtypes = list(sig[1:])
+
+    # -- bignum helpers
+    def bn(self, v):
+        b = v.to_bytes(max(1, (v.bit_length() + 7) // 8), 'big')
+        return self.lib.BN_bin2bn(b, len(b), None)
+
+    def bn_int(self, bn, size=80):
+        buf = self.ct.create_string_buffer(size)
+        if self.lib.BN_bn2binpad(bn, buf, size) != size:
+            raise OSError("BN_bn2binpad failed")
+        return int.from_bytes(buf.raw, 'big')
+
+    # -- prime curves
+    def ec_mul(self, cname, k, P=None):
+        """k*G (P None) or k*P; returns affine point or None."""
+        lib = self.lib
+        key = lib.EC_KEY_new_by_curve_name(self.NID[cname])
+        grp = lib.EC_KEY_get0_group(key)
+        res = lib.EC_POINT_new(grp)
+        kb = self.bn(k)
+        if P is None:
+            ok = lib.EC_POINT_mul(grp, res, kb, None, None, None)
+        else:
+            pt = lib.EC_POINT_new(grp)
+            if lib.EC_POINT_set_affine_coordinates(grp, pt, self.bn(P[0]), self.bn(P[1]), None) != 1:
+                raise OSError("EC_POINT_set_affine_coordinates failed")
+            ok = lib.EC_POINT_mul(grp, res, None, pt, kb, None)
+        if ok != 1:
+            raise OSError("EC_POINT_mul failed")
+        if lib.EC_POINT_is_at_infinity(grp, res):
+            out = None
+        else:
+            x, y = lib.BN_new(), lib.BN_new()
+            lib.EC_POINT_get_affine_coordinates(grp, res, x, y, None)
+            out = (self.bn_int(x), self.bn_int(y))
+        lib.EC_KEY_free(key)
+        return out
+
+    def ecdsa_sign(self, cname, d, h):
+        lib = self.lib
+        key = lib.EC_KEY_new_by_curve_name(self.NID[cname])
+        lib.EC_KEY_set_private_key(key, self.bn(d))
+        sig = lib.ECDSA_do_sign(h, len(h), key)
+        if not sig:
+            raise OSError("ECDSA_do_sign failed")
+        r = self.bn_int(lib.ECDSA_SIG_get0_r(sig))
+        s = self.bn_int(lib.ECDSA_SIG_get0_s(sig))
+        lib.ECDSA_SIG_free(sig)
+        lib.EC_KEY_free(key)
+        return r, s
+
+    def ecdsa_verify(self, cname, Q, h, r, s):
+        lib = self.lib
+        key = lib.EC_KEY_new_by_curve_name(self.NID[cname])
+        if lib.EC_KEY_set_public_key_affine_coordinates(key, self.bn(Q[0]), self.bn(Q[1])) != 1:
+            raise OSError("bad public key")
+        sig = lib.ECDSA_SIG_new()
+        lib.ECDSA_SIG_set0(sig, self.bn(r), self.bn(s))
+        rc = lib.ECDSA_do_verify(h, len(h), sig, key)
+        lib.ECDSA_SIG_free(sig)
+        lib.EC_KEY_free(key)
+        return rc == 1
+
+    # -- raw-key algorithms
+    def raw_pub(self, alg, priv):
+        lib, ct = self.lib, self.ct
+        pk = lib.EVP_PKEY_new_raw_private_key(self.PKEY[alg], None, priv, len(priv))
+        if not pk:
+            raise OSError("EVP_PKEY_new_raw_private_key failed")
+        ln = ct.c_size_t(64)
+        buf = ct.create_string_buffer(64)
+        lib.EVP_PKEY_get_raw_public_key(pk, buf, ct.byref(ln))
+        lib.EVP_PKEY_free(pk)
+        return buf.raw[:ln.value]
+
+    def xdh(self, alg, priv, pub):
+        """Shared secret or None when OpenSSL refuses (all-zero output)."""
+        lib, ct = self.lib, self.ct
+        sk = lib.EVP_PKEY_new_raw_private_key(self.PKEY[alg], None, priv, len(priv))
+        pk = lib.EVP_PKEY_new_raw_public_key(self.PKEY[alg], None, pub, len(pub))
+        ctx = lib.EVP_PKEY_CTX_new(sk, None)
+        lib.EVP_PKEY_derive_init(ctx)
+        lib.EVP_PKEY_derive_set_peer(ctx, pk)
+        ln = ct.c_size_t(64)
+        buf = ct.create_string_buffer(64)
+        rc = lib.EVP_PKEY_derive(ctx, buf, ct.byref(ln))
+        lib.EVP_PKEY_CTX_free(ctx)
+        lib.EVP_PKEY_free(sk)
+        lib.EVP_PKEY_free(pk)
+        return buf.raw[:ln.value] if rc == 1 else None
+
+    def ed_sign(self, alg, seed, msg):
+        lib, ct = self.lib, self.ct
+        sk = lib.EVP_PKEY_new_raw_private_key(self.PKEY[alg], None, seed, len(seed))
+        md = lib.EVP_MD_CTX_new()
+        if lib.EVP_DigestSignInit(md, None, None, None, sk) != 1:
+            raise OSError("EVP_DigestSignInit failed")
+        ln = ct.c_size_t(128)
+        buf = ct.create_string_buffer(128)
+        if lib.EVP_DigestSign(md, buf, ct.byref(ln), msg, len(msg)) != 1:
+            raise OSError("EVP_DigestSign failed")
+        lib.EVP_MD_CTX_free(md)
+        lib.EVP_PKEY_free(sk)
+        return buf.raw[:ln.value]
+
+    def ed_verify(self, alg, pub, msg, sig):
+        lib = self.lib
+        pk = lib.EVP_PKEY_new_raw_public_key(self.PKEY[alg], None, pub, len(pub))
+        if not pk:
+            return False
+        md = lib.EVP_MD_CTX_new()
+        lib.EVP_DigestVerifyInit(md, None, None, None, pk)
+        rc = lib.EVP_DigestVerify(md, sig, len(sig), msg, len(msg))
+        lib.EVP_MD_CTX_free(md)
+        lib.EVP_PKEY_free(pk)
+        return rc == 1
+
+
+def _st_openssl(counts, rounds=12):
+    """Optional: compare with the system OpenSSL on pseudo-random inputs."""
+    import random
+    try:
+        o = _OpenSSL()
+    except (OSError, AttributeError) as e:
+        counts['openssl'] = 'unavailable: %s' % (e,)
+        return
+    rnd = random.Random(0x0551)
+    n = 0
+    for cname in ('P-192', 'P-224', 'P-256', 'P-384', 'P-521'):
+        c = CURVES[cname]
+        try:
+            o.ec_mul(cname, 1)
+        except OSError:
+            continue
+        for _ in range(rounds):
+            d = rnd.randrange(1, c['n'])
+            k = rnd.randrange(1, c['n'])
+            Q = ws_mul(c, d, c['G'])
+            _eq(Q, o.ec_mul(cname, d), "openssl %s d*G" % cname)
+            _eq(ws_mul(c, k, Q), o.ec_mul(cname, k, Q), "openssl %s k*Q" % cname)
+            h = hashlib.sha512(rnd.randbytes(8)).digest()[:rnd.choice((20, 28, 32, 48, 64))]
+            r, s = ecdsa_sign(c, d, k, h)
+            _ok(o.ecdsa_verify(cname, Q, h, r, s), "openssl rejects our %s signature" % cname)
+            _ok(not o.ecdsa_verify(cname, Q, h, r, (s + 1) % c['n'] or 1), "openssl accepts bad sig")
+            r2, s2 = o.ecdsa_sign(cname, d, h)
+            _ok(ecdsa_verify(c, Q, h, r2, s2), "we reject openssl's %s signature" % cname)
+            _ok(ecdsa_verify(c, Q, h, r2, c['n'] - s2), "malleated signature rejected")
+            _ok(not ecdsa_verify(c, Q, h + b'\x00', r2, s2) or len(h) * 8 >= c['n'].bit_length(),
+                "%s: modified short hash accepted" % cname)
+            n += 7
+    for alg, f, sz, gu in (('X25519', x25519, 32, 9), ('X448', x448, 56, 5)):
+        for _ in range(rounds):
+            a, b = rnd.randbytes(sz), rnd.randbytes(sz)
+            A = f(a, gu.to_bytes(sz, 'little'))
+            _eq(A, o.raw_pub(alg, a), "openssl %s public" % alg)
+            u = rnd.randbytes(sz)                   # arbitrary (maybe twist / non-canonical)
+            _eq(f(b, u), o.xdh(alg, b, u), "openssl %s derive" % alg)
+            n += 2
+        for u in mont_low_order_us('Curve' + alg[1:]):
+            _eq(o.xdh(alg, rnd.randbytes(sz), u.to_bytes(sz, 'little')), None,
+                "openssl %s accepts low-order u" % alg)
+            n += 1
+    for alg in ('Ed25519', 'Ed448'):
+        sz = CURVES[alg]['size']
+        for _ in range(rounds):
+            seed = rnd.randbytes(sz)
+            msg = rnd.randbytes(rnd.randrange(0, 200))
+            pk = eddsa_pubkey(alg, seed)
+            _eq(pk, o.raw_pub(alg, seed), "openssl %s public" % alg)
+            sig = eddsa_sign(alg, seed, msg)
+            _eq(sig, o.ed_sign(alg, seed, msg), "openssl %s sign" % alg)
+            _ok(eddsa_verify(alg, pk, msg, sig), alg + " own verify")
+            _ok(o.ed_verify(alg, pk, msg, sig), "openssl %s verify" % alg)
+            bad = bytearray(sig)
+            bad[rnd.randrange(len(bad))] ^= 1 << rnd.randrange(8)
+            _eq(eddsa_verify(alg, pk, msg, bytes(bad)), o.ed_verify(alg, pk, msg, bytes(bad)),
+                "openssl %s verify of corrupted signature" % alg)
+            n += 5
+    counts['openssl'] = n
+
+
+def selftest(full=True, openssl=True, vec_dir=_VEC_DIR, st_dir=_ST_DIR):
+    """Runs every check; raises AssertionError with a message on mismatch and
+    returns a dict of counts.  full=False skips the data files under /repo
+    (parameters, arithmetic and embedded RFC vectors only)."""
+    counts = {}
+    counts['param_checks'] = _verify_params()
+    _st_arith(counts)
+    _st_rfc_vectors(counts)
+    if full:
+        _st_selftest_files(counts, st_dir)
+        _st_nist(counts, vec_dir)
+        _st_wycheproof(counts, vec_dir)
+    if openssl:
+        _st_openssl(counts)
+    return counts
+
+
+if __name__ == '__main__':
+    import sys
+    import time
+    _t0 = time.time()
+    _res = selftest(full='--quick' not in sys.argv)
+    for _k, _v in _res.items():
+        print("%-36s %s" % (_k, _v))
+    print("selftest OK in %.1f s" % (time.time() - _t0))
